@@ -410,6 +410,8 @@ class Translator:
                     return "(%s &&& %s)" % (a, b), NAT
                 if isinstance(op, ast.BitOr):
                     return "(%s ||| %s)" % (a, b), NAT
+                if isinstance(op, ast.BitXor):
+                    return "(%s ^^^ %s)" % (a, b), NAT
                 if isinstance(op, ast.LShift):
                     return "(%s <<< %s)" % (a, b), NAT
                 if isinstance(op, ast.RShift):
@@ -589,6 +591,22 @@ class Translator:
                 v = c.fresh("text")
                 binds.append((v, "E.decode %s %s" % (cs, b)))
                 return v, STR
+            # int.from_bytes(b, sys.byteorder) / n.to_bytes(k, sys.byteorder): the byte order is the platform's in both
+            # directions; little-endian is used here (the result of a round trip does not depend on it)
+            if f.attr == "from_bytes" and isinstance(f.value, ast.Name) and f.value.id == "int" and len(n.args) == 2 \
+                    and ast.unparse(n.args[1]) == "sys.byteorder":
+                a, ta = self.ex(n.args[0], c, binds)
+                if ta != BYTES:
+                    raise Untranslatable("from_bytes of " + lean_type(ta))
+                return "(Mimic.Py.leVal %s)" % a, NAT
+            if f.attr == "to_bytes" and len(n.args) == 2 and ast.unparse(n.args[1]) == "sys.byteorder":
+                v, tv = self.ex(f.value, c, binds)
+                k, tk = self.ex(n.args[0], c, binds)
+                if tv != NAT or tk != NAT:
+                    raise Untranslatable("to_bytes on " + lean_type(tv))
+                r = c.fresh("raw")
+                binds.append((r, "(if %s < 256 ^ %s then some (Mimic.Py.le %s %s) else none)" % (v, k, k, v)))     # OverflowError
+                return r, BYTES
             # text.replace("c", "r") with a one-character pattern
             if f.attr == "replace" and len(n.args) == 2 and getattr(self, "concrete_str", False) and isinstance(n.args[0], ast.Constant) \
                     and isinstance(n.args[0].value, str) and len(n.args[0].value) == 1 and isinstance(n.args[1], ast.Constant) \
@@ -1607,4 +1625,15 @@ def translate_execute():
     out.append(t.function("parse_com_stmt_execute"))
     # the source of REGEX_PARAM is pinned by C06.source_facts (Extracted/Params.lean); E.paramAt is its meaning
     out.append("end Mimic.Extracted.ExecuteCode")
+    return "\n".join(out) + "\n"
+
+
+# ----------------------------------------------------------------------------- utils.py: xor
+def translate_utils():
+    from mysql_mimic import utils as U
+    t = Translator(U, {}, {})
+    out = ["-- GENERATED by harness/extract.py (harness/pytrans2.py) from /repo/mysql_mimic/utils.py — do not edit",
+           "import Mimic.Py", "namespace Mimic.Extracted.UtilsCode", "open Mimic.Py", "", "variable {S : Type}", ""]
+    out.append(t.function("xor"))
+    out.append("end Mimic.Extracted.UtilsCode")
     return "\n".join(out) + "\n"
